@@ -480,6 +480,18 @@ theorem pickle_eq (S : SetOrder) (hS : MemPreserving S) (d : EqCtx) (x : Inst) :
   rw [rebuildAttrs_eq_map]
   exact instEq_map d (rebuildV S) x true x.nones (fun p _ => pyEq_rebuildV S hS p.2) (namesEq_refl _)
 
+/-- **C11 (pickle, with the order of the new `__dict__`)**: the unpickled copy, its `__dict__`
+    re-ordered as `__getstate__` / `__setstate__` leave it, `==` the original -/
+theorem pickle_ord_eq (fields : List String) (S : SetOrder) (hS : MemPreserving S) (d : EqCtx) (x : Inst) :
+    instEq d x (pickleOrdI fields S x) = true := by
+  obtain ⟨hc, hu, hall, hn⟩ := (instEq_fieldwise d x (pickleI S x)).1 (pickle_eq S hS d x)
+  exact (instEq_fieldwise d x _).2 ⟨hc, hu, fun k => by rw [getA_pickleOrd]; exact hall k, hn⟩
+
+theorem pickle_ord_example :
+    (pickleOrdI ["a", "b", "c"] id { cls := "A", attrs := [("z", .int 9), ("c", .int 3), ("a", .int 1)] }).attrs
+      = [("a", .int 1), ("c", .int 3), ("z", .int 9)] := by
+  rfl
+
 /-- … and prints / hashes like it when the rebuilt sets keep their iteration order (otherwise not:
     `deepcopy_hash_counterexample` applies to pickle verbatim, finding `pickle-hash-differs:set-order`) -/
 theorem pickle_hash_partial (R : Render) (x : Inst) :
@@ -881,6 +893,15 @@ theorem copy_tables_ok :
     ∧ (projOf Generated.copyRows .pickle .structure).mode = .deep
     ∧ (projOf Generated.copyRows .pickle .immStructure).mode = .deep
     ∧ Generated.copyRows.all (fun r => !r.kind.isWrapper || wrapperRowSafe r || unsafeWrapperRows.contains r) = true := by
+  decide
+
+/-- former findings `wrapper-copy-*` (fixed by /repo 45dcf95): every wrapper row of today's table keeps
+    copies apart — a copy of a field's collection taken on its own is a plain container, a wrapper
+    copied with its owner is bound to the NEW owner, and taking a copy never touches the original
+    owner.  (The rows of 58bf716 are `unsafeWrapperRows`: `wrapper_deepcopy_reaches_owner`,
+    `wrapper_copy_mutates_owner` replay them on the model.) -/
+theorem fixed_wrapper_rows_safe :
+    Generated.copyRows.all (fun r => !r.kind.isWrapper || wrapperRowSafe r) = true := by
   decide
 
 /-- `x = A(arr=[1, [..]], m={..}, n=B(arr=[..]))`: cell 0 = x, 1 = x.arr (bound to 0), 2 = an untyped
